@@ -25,9 +25,17 @@ type genFile struct {
 	F        *ir.File
 	Desc     string
 	NumFuncs int
+	ArgBytes map[string]int64 // per function: the argument size of its signature under the Go ABI0 layout
 }
 
-var c11Sigs = []string{"func()", "func(x uint64) uint64", "func(a, b []byte) (n int)", "func(p *[4]uint32, s string)", "func(x struct{ a int8; b int64 }) (r float64)"}
+var c11Sigs = []string{"func()", "func(x uint64) uint64", "func(a, b []byte) (n int)", "func(p *[4]uint32, s string)", "func(x struct{ a int8; b int64 }) (r float64)",
+	"func(x uint16)", "func(p *uint64, n uint32)", "func(x uint64) bool", "func(c byte) (ok bool, n int)", "func(a [3]byte) (b uint32)"}
+
+// argument sizes of c11Sigs as the Go compiler lays them out (parameters, results from the next pointer
+// boundary, no padding after the last result); written down here, not asked of the code under test
+var c11ArgBytes = map[string]int64{"func()": 0, "func(x uint64) uint64": 16, "func(a, b []byte) (n int)": 56, "func(p *[4]uint32, s string)": 24,
+	"func(x struct{ a int8; b int64 }) (r float64)": 24, "func(x uint16)": 2, "func(p *uint64, n uint32)": 12, "func(x uint64) bool": 9,
+	"func(c byte) (ok bool, n int)": 24, "func(a [3]byte) (b uint32)": 12}
 
 // genPrintFile builds a random file through the public builder API
 func genPrintFile(r *RNG, k int) *genFile {
@@ -65,7 +73,12 @@ func genPrintFile(r *RNG, k int) *genFile {
 		g.NumFuncs++
 		ctx.Function(name)
 		ctx.Attributes(Pick(r, []attr.Attribute{attr.NOSPLIT, 0, attr.NOSPLIT | attr.NOFRAME, attr.NOSPLIT | attr.NOPTR, attr.NOSPLIT | 128, attr.DUPOK | attr.NOSPLIT}))
-		ctx.SignatureExpr(Pick(r, c11Sigs))
+		sigExpr := Pick(r, c11Sigs)
+		ctx.SignatureExpr(sigExpr)
+		if g.ArgBytes == nil {
+			g.ArgBytes = map[string]int64{}
+		}
+		g.ArgBytes[name] = c11ArgBytes[sigExpr]
 		if r.Chance(30) {
 			ctx.Doc("doc line for "+name, "second line")
 		}
@@ -323,8 +336,12 @@ func c11(c *Ctx) {
 						o.Plan.GoViolations = append(o.Plan.GoViolations, GoViolation{Key: "print:text-flags", Desc: fmt.Sprintf("case %d: function %s has attributes %d but its TEXT line %q evaluates to %d", idx, fnSec.Name, uint64(fnSec.Attributes), ln, got), Replay: map[string]any{"file": g.Desc, "text": string(out)}})
 					}
 				}
-				if frame != int64(fnSec.FrameBytes()) || args != int64(fnSec.ArgumentBytes()) {
-					o.Plan.GoViolations = append(o.Plan.GoViolations, GoViolation{Key: "print:text-sizes", Desc: fmt.Sprintf("case %d: function %s has frame %d and arguments %d but is declared as %q", idx, fnSec.Name, fnSec.FrameBytes(), fnSec.ArgumentBytes(), ln), Replay: map[string]any{"file": g.Desc, "text": string(out)}})
+				wantArgs, known := g.ArgBytes[fnSec.Name]
+				if !known {
+					wantArgs = int64(fnSec.ArgumentBytes())
+				}
+				if frame != int64(fnSec.FrameBytes()) || args != wantArgs {
+					o.Plan.GoViolations = append(o.Plan.GoViolations, GoViolation{Key: "print:text-sizes", Desc: fmt.Sprintf("case %d: function %s has frame %d and arguments %d but is declared as %q", idx, fnSec.Name, fnSec.FrameBytes(), wantArgs, ln), Replay: map[string]any{"file": g.Desc, "text": string(out)}})
 				}
 			}
 			if found != 1 {
